@@ -41,6 +41,8 @@ Ltac df sh h H d :=
   end.
 Ltac start sh c a H :=
   assert (H : affOn K (inR (full sh)) (aff c a) c a) by (intros j _; reflexivity).
+Ltac finish1 H pt a :=
+  etransitivity; [apply (H pt); cbn; lia | unfold aff, a; cbn [lin nth]; rewrite ?(lin_nil_l K); rewrite ?(Fdiv_def Kf); ring].
 Ltac finish H pt :=
   etransitivity; [apply (H pt); cbn; lia | unfold aff; cbn [lin nth]; rewrite ?(lin_nil_l K); rewrite ?(Fdiv_def Kf); ring].
 
@@ -68,6 +70,17 @@ Proof.
   - start sh c a H. sm sh w H 1%nat. df sh hx H 0%nat. sm sh w H 0%nat. df sh hy H 1%nat. finish H [x; y].
   - start sh c a H. sm sh w H 1%nat. df sh hx H 0%nat. sm sh w H 0%nat. df sh hy H 1%nat. finish H [x; y].
   - start sh c a H. sm sh w H 0%nat. df sh hy H 1%nat. sm sh w H 0%nat. df sh hy H 1%nat. finish H [x; y].
+Qed.
+
+Lemma sobel2_d1_interior m : m <> MFcb ->
+  d1 m sh sp 0 (aff c a) [x; y] = a0 / hx /\ d1 m sh sp 1 (aff c a) [x; y] = a1 / hy.
+Proof.
+  intro Hm. pose proof (weight_nz m) as Hw. set (w := smooth_weight m) in *.
+  assert (E : forall d h f, dstep m sh h d f = fd sh h d (smooth_others sh w d f)).
+  { intros. destruct m; try contradiction; reflexivity. }
+  unfold d1. rewrite !E. clear E. split.
+  - start sh c a H. sm sh w H 1%nat. df sh hx H 0%nat. finish1 H [x; y] a.
+  - start sh c a H. sm sh w H 0%nat. df sh hy H 1%nat. finish1 H [x; y] a.
 Qed.
 End D2.
 
@@ -103,6 +116,19 @@ Proof.
   - start sh c a H. sm sh w H 1%nat. sm sh w H 2%nat. df sh hx H 0%nat. sm sh w H 0%nat. sm sh w H 1%nat. df sh hz H 2%nat. finish H [x; y; z].
   - start sh c a H. sm sh w H 0%nat. sm sh w H 2%nat. df sh hy H 1%nat. sm sh w H 0%nat. sm sh w H 1%nat. df sh hz H 2%nat. finish H [x; y; z].
   - start sh c a H. sm sh w H 0%nat. sm sh w H 1%nat. df sh hz H 2%nat. sm sh w H 0%nat. sm sh w H 1%nat. df sh hz H 2%nat. finish H [x; y; z].
+Qed.
+
+Lemma sobel3_d1_interior m : m <> MFcb ->
+  d1 m sh sp 0 (aff c a) [x; y; z] = a0 / hx /\ d1 m sh sp 1 (aff c a) [x; y; z] = a1 / hy /\
+  d1 m sh sp 2 (aff c a) [x; y; z] = a2 / hz.
+Proof.
+  intro Hm. pose proof (weight_nz m) as Hw. set (w := smooth_weight m) in *.
+  assert (E : forall d h f, dstep m sh h d f = fd sh h d (smooth_others sh w d f)).
+  { intros. destruct m; try contradiction; reflexivity. }
+  unfold d1. rewrite !E. clear E. repeat split.
+  - start sh c a H. sm sh w H 1%nat. sm sh w H 2%nat. df sh hx H 0%nat. finish1 H [x; y; z] a.
+  - start sh c a H. sm sh w H 0%nat. sm sh w H 2%nat. df sh hy H 1%nat. finish1 H [x; y; z] a.
+  - start sh c a H. sm sh w H 0%nat. sm sh w H 1%nat. df sh hz H 2%nat. finish1 H [x; y; z] a.
 Qed.
 End D3.
 End Sobel.
